@@ -4,6 +4,7 @@
 import Verif.Model.C08
 import Mathlib.Tactic.Linarith
 import Mathlib.Tactic.Ring
+import Mathlib.Tactic.FieldSimp
 import Mathlib.Algebra.Order.Field.Basic
 import Mathlib.Algebra.Order.Field.Rat
 
@@ -883,5 +884,954 @@ theorem take_drop_eq_filter {β} : ∀ (l : List β) (i0 a b : Nat),
       · have ha' : a - i0 = (a - (i0 + 1)) + 1 := by omega
         rw [ha', List.drop_succ_cons, ih (i0 + 1) a b]
         simp [ha]
+
+/-! ## Editing tracks (deepening round D): interpolate / split / merge / filter -/
+
+/-- strictly increasing scan-line indices -/
+def Inc (tr : Track) : Prop := (timesOf tr).Pairwise (· < ·)
+
+/-- the first sentence of the property for one track -/
+def WellFormed (nLines : Int) (lo hi : Rat) (tr : Track) : Prop :=
+  tr ≠ [] ∧ Inc tr ∧ ∀ p ∈ tr, 0 ≤ p.1 ∧ p.1 < nLines ∧ lo ≤ p.2 ∧ p.2 ≤ hi
+
+theorem foldl_min_le (l : List Int) (a : Int) (h : ∀ x ∈ l, a ≤ x) : l.foldl min a = a := by
+  induction l generalizing a with
+  | nil => rfl
+  | cons b l ih =>
+    have hab : a ≤ b := h b (by simp)
+    rw [List.foldl_cons, min_eq_left hab]
+    exact ih a (fun x hx => h x (by simp [hx]))
+
+theorem foldl_max_inc (l : List Int) (a : Int) (h : (a :: l).Pairwise (· < ·)) :
+    l.foldl max a = (a :: l).getLast (by simp) := by
+  induction l generalizing a with
+  | nil => rfl
+  | cons b l ih =>
+    rw [List.pairwise_cons] at h
+    have hab : a < b := h.1 b (by simp)
+    rw [List.foldl_cons, max_eq_right hab.le, ih b h.2, List.getLast_cons_cons]
+
+theorem interpAt_mem (p : Int × Rat) (rest : Track) (h : Inc (p :: rest)) :
+    ∀ q ∈ p :: rest, interpAt q.1 p rest = q.2 := by
+  induction rest generalizing p with
+  | nil => intro q hq; simp at hq; subst hq; rfl
+  | cons r rs ih =>
+    intro q hq
+    unfold Inc timesOf at h
+    simp only [List.map_cons, List.pairwise_cons] at h
+    rcases List.mem_cons.1 hq with rfl | hq'
+    · have : q.1 < r.1 := h.1 r.1 (by simp)
+      simp only [interpAt, this, if_true, le_refl]
+    · have hge : r.1 ≤ q.1 := by
+        rcases List.mem_cons.1 hq' with rfl | h3
+        · exact le_refl _
+        · exact (h.2.1 q.1 (List.mem_map.2 ⟨q, h3, rfl⟩)).le
+      have : ¬ q.1 < r.1 := by omega
+      simp only [interpAt, this, if_false]
+      exact ih r (by unfold Inc timesOf; simp only [List.map_cons, List.pairwise_cons]; exact h.2) q hq'
+
+theorem interpAt_bounds (lo hi : Rat) (x : Int) (p : Int × Rat) (rest : Track) (h : Inc (p :: rest))
+    (hb : ∀ q ∈ p :: rest, lo ≤ q.2 ∧ q.2 ≤ hi) : lo ≤ interpAt x p rest ∧ interpAt x p rest ≤ hi := by
+  induction rest generalizing p with
+  | nil => exact hb p (by simp)
+  | cons r rs ih =>
+    unfold Inc timesOf at h
+    simp only [List.map_cons, List.pairwise_cons] at h
+    unfold interpAt
+    by_cases h1 : x < r.1
+    · rw [if_pos h1]
+      by_cases h2 : x ≤ p.1
+      · rw [if_pos h2]; exact hb p (by simp)
+      · rw [if_neg h2]
+        have hpr : p.1 < r.1 := h.1 r.1 (by simp)
+        have hp := hb p (by simp)
+        have hr := hb r (by simp)
+        have hd : (0 : Rat) < ((r.1 - p.1 : Int) : Rat) := by exact_mod_cast (by omega : 0 < r.1 - p.1)
+        have hx0 : (0 : Rat) < ((x - p.1 : Int) : Rat) := by exact_mod_cast (by omega : 0 < x - p.1)
+        have hx1 : ((x - p.1 : Int) : Rat) < ((r.1 - p.1 : Int) : Rat) := by exact_mod_cast (by omega : x - p.1 < r.1 - p.1)
+        generalize ((r.1 - p.1 : Int) : Rat) = d at hd hx1
+        generalize ((x - p.1 : Int) : Rat) = e at hx0 hx1
+        have hl0 : 0 < e / d := div_pos hx0 hd
+        have hl1 : e / d < 1 := (div_lt_one hd).2 hx1
+        have e1 : (r.2 - p.2) / d * e + p.2 = (1 - e / d) * p.2 + (e / d) * r.2 := by field_simp; ring
+        rw [e1]
+        generalize e / d = l at hl0 hl1
+        constructor <;> nlinarith [hp.1, hp.2, hr.1, hr.2]
+    · rw [if_neg h1]
+      exact ih r (by unfold Inc timesOf; simp only [List.map_cons, List.pairwise_cons]; exact h.2)
+        (fun q hq => hb q (by simp [hq]))
+
+theorem inc_tail {p : Int × Rat} {rest : Track} (h : Inc (p :: rest)) : Inc rest := by
+  unfold Inc timesOf at *; simp only [List.map_cons, List.pairwise_cons] at h; exact h.2
+
+theorem inc_first_le (p : Int × Rat) (rest : Track) (h : Inc (p :: rest)) : ∀ q ∈ p :: rest, p.1 ≤ q.1 := by
+  intro q hq
+  unfold Inc timesOf at h; simp only [List.map_cons, List.pairwise_cons] at h
+  rcases List.mem_cons.1 hq with rfl | hq
+  · exact le_refl _
+  · exact (h.1 q.1 (List.mem_map.2 ⟨q, hq, rfl⟩)).le
+
+theorem inc_le_last (p : Int × Rat) (rest : Track) (h : Inc (p :: rest)) :
+    ∀ q ∈ p :: rest, q.1 ≤ ((p :: rest).getLast (by simp)).1 := by
+  induction rest generalizing p with
+  | nil => intro q hq; simp at hq; subst hq; simp
+  | cons r rs ih =>
+    intro q hq
+    rw [List.getLast_cons_cons]
+    rcases List.mem_cons.1 hq with rfl | hq
+    · have h1 := inc_first_le q (r :: rs) h r (by simp)
+      have h2 := ih r (inc_tail h) r (by simp)
+      omega
+    · exact ih r (inc_tail h) q hq
+
+theorem interpolate_eq (p : Int × Rat) (rest : Track) (h : Inc (p :: rest)) :
+    interpolate (p :: rest) =
+      (List.range (((p :: rest).getLast (by simp)).1 - p.1 + 1).toNat).map
+        fun (k : Nat) => (p.1 + (k : Int), interpAt (p.1 + (k : Int)) p rest) := by
+  have hmin : (timesOf rest).foldl min p.1 = p.1 :=
+    foldl_min_le _ _ (fun x hx => by
+      obtain ⟨q, hq, rfl⟩ := List.mem_map.1 hx
+      exact inc_first_le p rest h q (by simp [hq]))
+  have hmax : (timesOf rest).foldl max p.1 = ((p :: rest).getLast (by simp)).1 := by
+    rw [foldl_max_inc _ _ (by simpa [Inc, timesOf] using h)]
+    have : p.1 :: timesOf rest = (p :: rest).map (·.1) := by simp [timesOf]
+    simp only [this, List.getLast_map]
+  simp only [interpolate, hmin, hmax]
+
+/-- number of lines an interpolated track covers -/
+theorem interp_len_pos (p : Int × Rat) (rest : Track) (h : Inc (p :: rest)) :
+    0 < (((p :: rest).getLast (by simp)).1 - p.1 + 1).toNat := by
+  have := inc_le_last p rest h p (by simp)
+  omega
+
+theorem interpolate_times_lem (tr : Track) (h : Inc tr) (f l : Int) (hf : (timesOf tr).head? = some f)
+    (hl : (timesOf tr).getLast? = some l) :
+    timesOf (interpolate tr) = (List.range (l - f + 1).toNat).map fun (k : Nat) => f + (k : Int) := by
+  cases tr with
+  | nil => simp [timesOf] at hf
+  | cons p rest =>
+    have e1 : f = p.1 := by simpa [timesOf] using hf.symm
+    have e2 : l = ((p :: rest).getLast (by simp)).1 := by
+      unfold timesOf at hl
+      rw [List.getLast?_map, List.getLast?_eq_some_getLast (by simp)] at hl
+      simpa using hl.symm
+    rw [interpolate_eq p rest h, e1, e2]
+    simp [timesOf, List.map_map, Function.comp_def]
+
+theorem interpolate_inc (tr : Track) (h : Inc tr) : Inc (interpolate tr) := by
+  cases tr with
+  | nil => simp [interpolate, Inc, timesOf]
+  | cons p rest =>
+    unfold Inc
+    rw [interpolate_eq p rest h]
+    simp only [timesOf, List.map_map, Function.comp_def]
+    rw [List.pairwise_map]
+    exact List.Pairwise.imp (fun {a b} hab => by omega) List.pairwise_lt_range
+
+theorem interpolate_keeps (tr : Track) (h : Inc tr) : ∀ q ∈ tr, q ∈ interpolate tr := by
+  cases tr with
+  | nil => intro q hq; simp at hq
+  | cons p rest =>
+    intro q hq
+    rw [interpolate_eq p rest h, List.mem_map]
+    have h1 := inc_first_le p rest h q hq
+    have h2 := inc_le_last p rest h q hq
+    refine ⟨(q.1 - p.1).toNat, List.mem_range.2 (by omega), ?_⟩
+    have e : p.1 + ((q.1 - p.1).toNat : Int) = q.1 := by omega
+    rw [e, interpAt_mem p rest h q hq]
+
+theorem interpolate_wf (n : Int) (lo hi : Rat) (tr : Track) (h : WellFormed n lo hi tr) :
+    WellFormed n lo hi (interpolate tr) := by
+  obtain ⟨hne, hinc, hb⟩ := h
+  cases tr with
+  | nil => exact absurd rfl hne
+  | cons p rest =>
+    refine ⟨?_, interpolate_inc _ hinc, ?_⟩
+    · rw [interpolate_eq p rest hinc]
+      have := interp_len_pos p rest hinc
+      intro hc
+      have := congrArg List.length hc
+      simp at this
+      omega
+    · intro q hq
+      rw [interpolate_eq p rest hinc, List.mem_map] at hq
+      obtain ⟨k, hk, rfl⟩ := hq
+      have hk' := List.mem_range.1 hk
+      have hlast := hb _ (List.getLast_mem (l := p :: rest) (by simp))
+      have hfirst := hb p (by simp)
+      have hib := interpAt_bounds lo hi (p.1 + (k : Int)) p rest hinc (fun q hq => (hb q hq).2.2)
+      refine ⟨by simp only; omega, by simp only; omega, hib.1, hib.2⟩
+
+theorem interpolate_idem (tr : Track) (h : Inc tr) : interpolate (interpolate tr) = interpolate tr := by
+  cases tr with
+  | nil => rfl
+  | cons p rest =>
+    have hI := interpolate_eq p rest h
+    have hn := interp_len_pos p rest h
+    generalize hN : (((p :: rest).getLast (by simp)).1 - p.1 + 1).toNat = N at hI hn
+    have hincI := interpolate_inc _ h
+    generalize hIdef : interpolate (p :: rest) = I at *
+    cases I with
+    | nil =>
+      have := congrArg List.length hI
+      simp at this; omega
+    | cons p' rest' =>
+      have hlen : (p' :: rest').length = N := by rw [hI]; simp
+      have hget : ∀ k (hk : k < (p' :: rest').length), (p' :: rest')[k] = (p.1 + (k : Int), interpAt (p.1 + (k : Int)) p rest) := by
+        intro k hk
+        simp only [hI, List.getElem_map, List.getElem_range]
+      have hp' : p'.1 = p.1 := by
+        have := hget 0 (by simp)
+        simp at this
+        rw [this]
+      have hlast : ((p' :: rest').getLast (by simp)).1 = p.1 + ((N - 1 : Nat) : Int) := by
+        rw [List.getLast_eq_getElem, hget]
+        simp only [hlen]
+      rw [interpolate_eq p' rest' hincI, hlast, hp']
+      have hN' : (p.1 + ((N - 1 : Nat) : Int) - p.1 + 1).toNat = N := by omega
+      rw [hN']
+      apply List.ext_getElem
+      · simp [hlen]
+      · intro k h1 h2
+        simp only [List.getElem_map, List.getElem_range]
+        have hk : k < (p' :: rest').length := h2
+        have hm := interpAt_mem p' rest' hincI ((p' :: rest')[k]) (List.getElem_mem hk)
+        rw [hget k hk] at hm ⊢
+        simp only at hm
+        rw [hm]
+
+/-! ### split / merge / filter -/
+
+theorem inc_sublist {s tr : Track} (hs : s.Sublist tr) (h : Inc tr) : Inc s := by
+  unfold Inc timesOf at *
+  exact List.Pairwise.sublist (List.Sublist.map _ hs) h
+
+theorem wf_sublist {n : Int} {lo hi : Rat} {s tr : Track} (hs : s.Sublist tr) (hne : s ≠ [])
+    (h : WellFormed n lo hi tr) : WellFormed n lo hi s :=
+  ⟨hne, inc_sublist hs h.2.1, fun p hp => h.2.2 p (hs.subset hp)⟩
+
+theorem splitAt_ok (tr : Track) (node : Int) (a b : Track) (h : splitAt tr node = .ok (a, b)) :
+    a ++ b = tr ∧ a ≠ [] ∧ b ≠ [] ∧ (a.length : Int) = min (max node 0) (tr.length : Int) := by
+  unfold splitAt at h
+  simp only at h
+  split at h
+  · cases h
+  · rename_i hc
+    simp only [Bool.or_eq_true, not_or, List.isEmpty_iff] at hc
+    injection h with h
+    injection h with h1 h2
+    subst h1; subst h2
+    refine ⟨List.take_append_drop _ _, hc.1, hc.2, ?_⟩
+    rw [List.length_take]
+    omega
+
+theorem splitAt_refused (tr : Track) (node : Int) :
+    (∃ e, splitAt tr node = .error e) ↔ (node ≤ 0 ∨ (tr.length : Int) ≤ node) := by
+  unfold splitAt
+  simp only
+  constructor
+  · intro ⟨e, h⟩
+    split at h
+    · rename_i hc
+      simp only [Bool.or_eq_true, List.isEmpty_iff, List.take_eq_nil_iff, List.drop_eq_nil_iff] at hc
+      rcases hc with (hc | hc) | hc
+      · omega
+      · subst hc; simp; omega
+      · omega
+    · cases h
+  · intro hn
+    refine ⟨"ValueError", ?_⟩
+    rw [if_pos]
+    simp only [Bool.or_eq_true, List.isEmpty_iff, List.take_eq_nil_iff, List.drop_eq_nil_iff]
+    omega
+
+theorem mem_eraseIdx_flatten_perm (g : List Track) (i : Nat) (tr : Track) (h : g[i]? = some tr) :
+    g.flatten.Perm (tr ++ (g.eraseIdx i).flatten) := by
+  induction g generalizing i with
+  | nil => simp at h
+  | cons x xs ih =>
+    cases i with
+    | zero => simp at h; subst h; simp
+    | succ k =>
+      simp only [List.getElem?_cons_succ] at h
+      simp only [List.eraseIdx_cons_succ, List.flatten_cons]
+      have := ih k h
+      refine (List.Perm.append_left x this).trans ?_
+      rw [← List.append_assoc, ← List.append_assoc]
+      exact List.Perm.append_right _ List.perm_append_comm
+
+theorem splitTrack_ok (g : List Track) (i : Nat) (node minLen : Int) (g' : List Track)
+    (h : splitTrack g i node minLen = .ok g') :
+    ∃ tr a b, g[i]? = some tr ∧ splitAt tr node = .ok (a, b) ∧
+      g' = g.eraseIdx i ++ [a, b].filter fun t => decide (minLen ≤ (t.length : Int)) := by
+  unfold splitTrack at h
+  split at h
+  · cases h
+  · rename_i tr htr
+    split at h
+    · cases h
+    · rename_i a b hab
+      injection h with h
+      exact ⟨tr, a, b, htr, hab, h.symm⟩
+
+theorem take_times_le (a : Track) (ha : Inc a) (sn : Nat) (ps : Int × Rat) (hs : a[sn]? = some ps) :
+    ∀ x ∈ a.take (sn + 1), x.1 ≤ ps.1 := by
+  intro x hx
+  obtain ⟨k, hk, rfl⟩ := List.mem_iff_getElem.1 hx
+  rw [List.length_take] at hk
+  obtain ⟨hsn, rfl⟩ := List.getElem?_eq_some_iff.1 hs
+  rw [List.getElem_take]
+  by_cases hks : k = sn
+  · subst hks; exact le_refl _
+  · have := (List.pairwise_iff_getElem.1 ha) k sn (by simp [timesOf]; omega) (by simp [timesOf]; omega) (by omega)
+    simp only [timesOf, List.getElem_map] at this
+    exact this.le
+
+theorem drop_times_ge (b : Track) (hb : Inc b) (en : Nat) (pe : Int × Rat) (he : b[en]? = some pe) :
+    ∀ y ∈ b.drop en, pe.1 ≤ y.1 := by
+  intro y hy
+  obtain ⟨k, hk, rfl⟩ := List.mem_iff_getElem.1 hy
+  rw [List.length_drop] at hk
+  obtain ⟨hen, rfl⟩ := List.getElem?_eq_some_iff.1 he
+  rw [List.getElem_drop]
+  by_cases hks : k = 0
+  · subst hks; simp
+  · have := (List.pairwise_iff_getElem.1 hb) en (en + k) (by simp [timesOf]; omega) (by simp [timesOf]; omega) (by omega)
+    simp only [timesOf, List.getElem_map] at this
+    exact this.le
+
+theorem merge_inc (a b : Track) (ha : Inc a) (hb : Inc b) (sn en : Nat) (ps pe : Int × Rat)
+    (hs : a[sn]? = some ps) (he : b[en]? = some pe) (hlt : ps.1 < pe.1) :
+    Inc (a.take (sn + 1) ++ b.drop en) := by
+  have h1 := take_times_le a ha sn ps hs
+  have h2 := drop_times_ge b hb en pe he
+  unfold Inc timesOf
+  rw [List.map_append, List.pairwise_append]
+  refine ⟨inc_sublist (List.take_sublist _ _) ha, inc_sublist (List.drop_sublist _ _) hb, ?_⟩
+  intro x hx y hy
+  obtain ⟨p, hp, rfl⟩ := List.mem_map.1 hx
+  obtain ⟨q, hq, rfl⟩ := List.mem_map.1 hy
+  have := h1 p hp
+  have := h2 q hq
+  omega
+
+theorem merge_wf {n : Int} {lo hi : Rat} (a b : Track) (ha : WellFormed n lo hi a) (hb : WellFormed n lo hi b)
+    (sn en : Nat) (ps pe : Int × Rat) (hs : a[sn]? = some ps) (he : b[en]? = some pe) (hlt : ps.1 < pe.1) :
+    WellFormed n lo hi (a.take (sn + 1) ++ b.drop en) := by
+  refine ⟨?_, merge_inc a b ha.2.1 hb.2.1 sn en ps pe hs he hlt, ?_⟩
+  · intro hc
+    have h0 := (List.append_eq_nil_iff.1 hc).1
+    rw [List.take_eq_nil_iff] at h0
+    rcases h0 with h0 | h0
+    · omega
+    · exact ha.1 h0
+  · intro p hp
+    rcases List.mem_append.1 hp with hp | hp
+    · exact ha.2.2 p (List.mem_of_mem_take hp)
+    · exact hb.2.2 p (List.mem_of_mem_drop hp)
+
+/-- the two chosen nodes become neighbours -/
+theorem merge_shape (a b : Track) (sn en : Nat) (ps pe : Int × Rat) (hs : a[sn]? = some ps) (he : b[en]? = some pe) :
+    a.take (sn + 1) ++ b.drop en = a.take sn ++ ps :: pe :: b.drop (en + 1) := by
+  obtain ⟨hsn, rfl⟩ := List.getElem?_eq_some_iff.1 hs
+  obtain ⟨hen, rfl⟩ := List.getElem?_eq_some_iff.1 he
+  rw [List.take_succ_eq_append_getElem hsn, List.drop_eq_getElem_cons hen]
+  simp only [List.append_assoc, List.singleton_append]
+
+theorem splitTrack_wf {n : Int} {lo hi : Rat} (g : List Track) (i : Nat) (node minLen : Int) (g' : List Track)
+    (hg : ∀ t ∈ g, WellFormed n lo hi t) (h : splitTrack g i node minLen = .ok g') :
+    ∀ t ∈ g', WellFormed n lo hi t := by
+  obtain ⟨tr, a, b, htr, hab, rfl⟩ := splitTrack_ok g i node minLen g' h
+  obtain ⟨happ, ha, hb, _⟩ := splitAt_ok tr node a b hab
+  have hwf := hg tr (List.mem_of_getElem? htr)
+  intro t ht
+  rcases List.mem_append.1 ht with ht | ht
+  · exact hg t (List.mem_of_mem_eraseIdx ht)
+  · have := (List.mem_filter.1 ht).1
+    simp only [List.mem_cons, List.not_mem_nil, or_false] at this
+    rcases this with rfl | rfl
+    · exact wf_sublist (happ ▸ List.sublist_append_left t b) ha hwf
+    · exact wf_sublist (happ ▸ List.sublist_append_right a t) hb hwf
+
+/-- with `min_length ≤ 1` a split keeps every point of the group (as a multiset) -/
+theorem splitTrack_perm (g : List Track) (i : Nat) (node minLen : Int) (g' : List Track) (hm : minLen ≤ 1)
+    (h : splitTrack g i node minLen = .ok g') : g'.flatten.Perm g.flatten := by
+  obtain ⟨tr, a, b, htr, hab, rfl⟩ := splitTrack_ok g i node minLen g' h
+  obtain ⟨happ, ha, hb, _⟩ := splitAt_ok tr node a b hab
+  have la : 0 < a.length := List.length_pos_iff.2 ha
+  have lb : 0 < b.length := List.length_pos_iff.2 hb
+  have hf : ([a, b].filter fun t => decide (minLen ≤ (t.length : Int))) = [a, b] := by
+    simp only [List.filter_cons, List.filter_nil]
+    rw [if_pos (by simp; omega), if_pos (by simp; omega)]
+  rw [hf]
+  refine List.Perm.trans ?_ (mem_eraseIdx_flatten_perm g i tr htr).symm
+  rw [List.flatten_append]
+  simp only [List.flatten_cons, List.flatten_nil, List.append_nil, happ]
+  exact List.perm_append_comm
+
+theorem mergeTracks_ok (g : List Track) (i sn j en : Nat) (g' : List Track) (h : mergeTracks g i sn j en = .ok g') :
+    ∃ a b ps pe, g[i]? = some a ∧ g[j]? = some b ∧ a[sn]? = some ps ∧ b[en]? = some pe ∧
+      ((ps.1 < pe.1 ∧ g' = (if i = j then g.set i (a.take (sn + 1) ++ b.drop en)
+          else (g.set i (a.take (sn + 1) ++ b.drop en)).eraseIdx j)) ∨
+       (pe.1 < ps.1 ∧ g' = (if j = i then g.set j (b.take (en + 1) ++ a.drop sn)
+          else (g.set j (b.take (en + 1) ++ a.drop sn)).eraseIdx i))) := by
+  unfold mergeTracks at h
+  split at h
+  · rename_i a b ha hb
+    split at h
+    · rename_i ps pe hs he
+      refine ⟨a, b, ps, pe, ha, hb, hs, he, ?_⟩
+      by_cases h1 : ps.1 = pe.1
+      · rw [if_pos h1] at h; cases h
+      · rw [if_neg h1] at h
+        by_cases h2 : ps.1 > pe.1
+        · rw [if_pos h2] at h
+          injection h with h
+          exact Or.inr ⟨h2, h.symm⟩
+        · rw [if_neg h2] at h
+          injection h with h
+          exact Or.inl ⟨by omega, h.symm⟩
+    · cases h
+  · cases h
+
+theorem mem_set_erase {α} (g : List α) (i j : Nat) (m t : α) (c : Prop) [Decidable c]
+    (h : t ∈ (if c then g.set i m else (g.set i m).eraseIdx j)) : t ∈ g ∨ t = m := by
+  split at h
+  · exact List.mem_or_eq_of_mem_set h
+  · exact List.mem_or_eq_of_mem_set (List.mem_of_mem_eraseIdx h)
+
+theorem mergeTracks_wf {n : Int} {lo hi : Rat} (g : List Track) (i sn j en : Nat) (g' : List Track)
+    (hg : ∀ t ∈ g, WellFormed n lo hi t) (h : mergeTracks g i sn j en = .ok g') :
+    ∀ t ∈ g', WellFormed n lo hi t := by
+  obtain ⟨a, b, ps, pe, ha, hb, hs, he, hcase⟩ := mergeTracks_ok g i sn j en g' h
+  have wa := hg a (List.mem_of_getElem? ha)
+  have wb := hg b (List.mem_of_getElem? hb)
+  intro t ht
+  rcases hcase with ⟨hlt, rfl⟩ | ⟨hlt, rfl⟩
+  · rcases mem_set_erase _ _ _ _ _ _ ht with h1 | rfl
+    · exact hg t h1
+    · exact merge_wf a b wa wb sn en ps pe hs he hlt
+  · rcases mem_set_erase _ _ _ _ _ _ ht with h1 | rfl
+    · exact hg t h1
+    · exact merge_wf b a wb wa en sn pe ps he hs hlt
+
+theorem keepTrack_iff (minLen : Int) (minDur lt : Rat) (tr : Track) (f l : Int)
+    (hf : (timesOf tr).head? = some f) (hl : (timesOf tr).getLast? = some l) :
+    keepTrack minLen minDur lt tr = true ↔ minLen ≤ (tr.length : Int) ∧ minDur ≤ lt * ((l - f : Int) : Rat) := by
+  unfold keepTrack
+  have hd : duration lt (timesOf tr) = some (lt * ((l - f : Int) : Rat)) := by
+    unfold duration seconds
+    rw [List.getLast?_map, List.head?_map, hf, hl]
+    simp only [Option.map_some]
+    congr 1
+    push_cast; ring
+  rw [hd]
+  simp only [Bool.and_eq_true, decide_eq_true_eq]
+
+theorem filterTracks_mem (minLen : Int) (minDur : Rat) (g : List (Rat × Track)) (x : Rat × Track) :
+    x ∈ filterTracks minLen minDur g ↔ x ∈ g ∧ keepTrack minLen minDur x.1 x.2 = true := by
+  unfold filterTracks; rw [List.mem_filter]
+
+theorem filterTracks_sublist (minLen : Int) (minDur : Rat) (g : List (Rat × Track)) :
+    (filterTracks minLen minDur g).Sublist g := List.filter_sublist
+
+theorem filterTracks_idem (minLen : Int) (minDur : Rat) (g : List (Rat × Track)) :
+    filterTracks minLen minDur (filterTracks minLen minDur g) = filterTracks minLen minDur g := by
+  unfold filterTracks; rw [List.filter_filter]; simp
+
+theorem applyOp_wf {n : Int} {lo hi : Rat} (lt : Rat) (g : List Track) (op : EditOp) (g' : List Track)
+    (hg : ∀ t ∈ g, WellFormed n lo hi t) (h : applyOp lt g op = .ok g') : ∀ t ∈ g', WellFormed n lo hi t := by
+  cases op with
+  | interpolate skip =>
+    simp only [applyOp] at h
+    injection h with h
+    subst h
+    intro t ht
+    obtain ⟨x, hx, rfl⟩ := List.mem_map.1 ht
+    have hxg : x.1 ∈ g := by
+      obtain ⟨h1, h2⟩ := List.mem_zipIdx' hx
+      rw [h2]; exact List.getElem_mem h1
+    split
+    · exact hg _ hxg
+    · exact interpolate_wf n lo hi _ (hg _ hxg)
+  | split i node minLen => exact splitTrack_wf g i node minLen g' hg h
+  | merge i sn j en => exact mergeTracks_wf g i sn j en g' hg h
+  | filter minLen minDur =>
+    simp only [applyOp] at h
+    injection h with h
+    subst h
+    intro t ht
+    obtain ⟨x, hx, rfl⟩ := List.mem_map.1 ht
+    have := (filterTracks_sublist minLen minDur _).subset hx
+    obtain ⟨t', ht', rfl⟩ := List.mem_map.1 this
+    exact hg t' ht'
+
+theorem runProgram_wf {n : Int} {lo hi : Rat} (lt : Rat) (ops : List EditOp) (g : List Track)
+    (hg : ∀ t ∈ g, WellFormed n lo hi t) : ∀ t ∈ runProgram lt ops g, WellFormed n lo hi t := by
+  induction ops generalizing g with
+  | nil => exact hg
+  | cons op ops ih =>
+    unfold runProgram
+    split
+    · rename_i g' h
+      exact ih g' (applyOp_wf lt g op g' hg h)
+    · exact ih g hg
+
+
+/-! ## Centroid refinement without bias correction (deepening round D): the pixel walk and its clamps -/
+
+theorem sum_nonneg_int (l : List Int) (h : ∀ x ∈ l, 0 ≤ x) : 0 ≤ l.sum := by
+  induction l with
+  | nil => simp
+  | cons a l ih =>
+    rw [List.sum_cons]
+    have := h a (by simp)
+    have := ih (fun x hx => h x (by simp [hx]))
+    omega
+
+theorem sum_nonpos_int (l : List Int) (h : ∀ x ∈ l, x ≤ 0) : l.sum ≤ 0 := by
+  induction l with
+  | nil => simp
+  | cons a l ih =>
+    rw [List.sum_cons]
+    have := h a (by simp)
+    have := ih (fun x hx => h x (by simp [hx]))
+    omega
+
+theorem pxAt_nonneg (col : List Int) (hc : ∀ v ∈ col, 0 ≤ v) (i : Int) : 0 ≤ pxAt col i := by
+  unfold pxAt
+  split
+  · exact le_refl _
+  · rw [List.getD_eq_getElem?_getD]
+    cases h : col[i.toNat]? with
+    | none => simp
+    | some v => simp only [Option.getD_some]; exact hc v (List.mem_of_getElem? h)
+
+theorem pxAt_neg (col : List Int) (i : Int) (h : i < 0) : pxAt col i = 0 := by
+  unfold pxAt; rw [if_pos h]
+
+theorem pxAt_beyond (col : List Int) (i : Int) (h : (col.length : Int) ≤ i) : pxAt col i = 0 := by
+  unfold pxAt
+  split
+  · rfl
+  · rw [List.getD_eq_getElem?_getD, List.getElem?_eq_none (by omega)]; rfl
+
+theorem m0At_nonneg (col : List Int) (hc : ∀ v ∈ col, 0 ≤ v) (h : Nat) (c : Int) : 0 ≤ m0At col h c := by
+  unfold m0At
+  apply sum_nonneg_int
+  intro x hx
+  obtain ⟨k, _, rfl⟩ := List.mem_map.1 hx
+  exact pxAt_nonneg col hc _
+
+theorem m1At_first_nonneg (col : List Int) (hc : ∀ v ∈ col, 0 ≤ v) (h : Nat) : 0 ≤ m1At col h 0 := by
+  unfold m1At
+  apply sum_nonneg_int
+  intro x hx
+  obtain ⟨k, _, rfl⟩ := List.mem_map.1 hx
+  by_cases hk : (k : Int) - (h : Int) < 0
+  · rw [pxAt_neg col _ (by omega)]; simp
+  · exact mul_nonneg (by omega) (pxAt_nonneg col hc _)
+
+theorem m1At_last_nonpos (col : List Int) (hc : ∀ v ∈ col, 0 ≤ v) (h : Nat) (n : Int) (hl : (col.length : Int) ≤ n) :
+    m1At col h (n - 1) ≤ 0 := by
+  unfold m1At
+  apply sum_nonpos_int
+  intro x hx
+  obtain ⟨k, _, rfl⟩ := List.mem_map.1 hx
+  by_cases hk : 0 < (k : Int) - (h : Int)
+  · rw [pxAt_beyond col _ (by omega)]; simp
+  · exact mul_nonpos_of_nonpos_of_nonneg (by omega) (pxAt_nonneg col hc _)
+
+theorem offsetAt_first_nonneg (eps : Rat) (heps : 0 < eps) (col : List Int) (hc : ∀ v ∈ col, 0 ≤ v) (h : Nat) :
+    0 ≤ offsetAt eps col h 0 := by
+  unfold offsetAt
+  have h0 : (0 : Rat) ≤ (m0At col h 0 : Rat) := by exact_mod_cast m0At_nonneg col hc h 0
+  have h1 : (0 : Rat) ≤ (m1At col h 0 : Rat) := by exact_mod_cast m1At_first_nonneg col hc h
+  exact div_nonneg h1 (by linarith)
+
+theorem offsetAt_last_nonpos (eps : Rat) (heps : 0 < eps) (col : List Int) (hc : ∀ v ∈ col, 0 ≤ v) (h : Nat) (n : Int)
+    (hl : (col.length : Int) ≤ n) : offsetAt eps col h (n - 1) ≤ 0 := by
+  unfold offsetAt
+  have h0 : (0 : Rat) ≤ (m0At col h (n - 1) : Rat) := by exact_mod_cast m0At_nonneg col hc h (n - 1)
+  have h1 : (m1At col h (n - 1) : Rat) ≤ 0 := by exact_mod_cast m1At_last_nonpos col hc h n hl
+  exact div_nonpos_of_nonpos_of_nonneg h1 (by linarith)
+
+theorem clampPt_range (n : Int) (hn : 1 ≤ n) (c : Int) : 0 ≤ clampPt n c ∧ clampPt n c < n := by
+  unfold clampPt
+  split
+  · omega
+  · split <;> omega
+
+theorem clampPt_id (n c : Int) (h0 : 0 ≤ c) (h1 : c < n) : clampPt n c = c := by
+  unfold clampPt
+  rw [if_neg (by omega), if_neg (by omega)]
+
+theorem refineIter_range (eps : Rat) (cols : List (List Int)) (h : Nat) (n : Int) (hn : 1 ≤ n) (pts : List (Int × Nat)) :
+    ∀ p ∈ (refineIter eps cols h n pts).1, 0 ≤ p.1 ∧ p.1 < n := by
+  intro p hp
+  unfold refineIter at hp
+  simp only [List.mem_map] at hp
+  obtain ⟨m, _, rfl⟩ := hp
+  exact clampPt_range n hn _
+
+theorem refineLoop_range (eps : Rat) (cols : List (List Int)) (h : Nat) (n : Int) (hn : 1 ≤ n) (fuel : Nat)
+    (pts pts' : List (Int × Nat)) (hr : refineLoop eps cols h n fuel pts = some pts') :
+    ∀ p ∈ pts', 0 ≤ p.1 ∧ p.1 < n := by
+  induction fuel generalizing pts with
+  | zero => simp [refineLoop] at hr
+  | succ f ih =>
+    unfold refineLoop at hr
+    simp only at hr
+    split at hr
+    · injection hr with hr; subst hr
+      exact refineIter_range eps cols h n hn pts
+    · exact ih _ hr
+
+/-- the hypotheses under which the walk is analysed: photon counts are non-negative, no scan line is longer than the image -/
+def ImageOK (cols : List (List Int)) (n : Int) : Prop :=
+  ∀ col ∈ cols, (∀ v ∈ col, 0 ≤ v) ∧ (col.length : Int) ≤ n
+
+theorem imageOK_getD (cols : List (List Int)) (n : Int) (hn : 0 ≤ n) (hi : ImageOK cols n) (t : Nat) :
+    (∀ v ∈ cols.getD t [], 0 ≤ v) ∧ ((cols.getD t []).length : Int) ≤ n := by
+  rw [List.getD_eq_getElem?_getD]
+  cases h : cols[t]? with
+  | none => simp; exact hn
+  | some col => simp only [Option.getD_some]; exact hi col (List.mem_of_getElem? h)
+
+/-- a point inside a non-negative image is never pushed over the edge -/
+theorem movePt_inside (eps : Rat) (heps : 0 < eps) (cols : List (List Int)) (h : Nat) (n : Int) (hi : ImageOK cols n)
+    (p : Int × Nat) (hp : 0 ≤ p.1 ∧ p.1 < n) :
+    0 ≤ (movePt eps cols h p).1 ∧ (movePt eps cols h p).1 < n := by
+  obtain ⟨hc, hl⟩ := imageOK_getD cols n (by omega) hi p.2
+  unfold movePt
+  simp only
+  split
+  · rename_i hoff
+    refine ⟨by simp only; omega, ?_⟩
+    simp only
+    by_contra hcon
+    have : p.1 = n - 1 := by omega
+    have := offsetAt_last_nonpos eps heps _ hc h n hl
+    rw [‹p.1 = n - 1›] at hoff
+    linarith
+  · split
+    · rename_i _ hoff
+      refine ⟨?_, by simp only; omega⟩
+      simp only
+      by_contra hcon
+      have h0 : p.1 = 0 := by omega
+      have := offsetAt_first_nonneg eps heps _ hc h
+      rw [h0] at hoff
+      linarith
+    · exact hp
+
+theorem movePt_unmoved (eps : Rat) (cols : List (List Int)) (h : Nat) (p : Int × Nat)
+    (hm : (movePt eps cols h p).2.2 = false) :
+    (movePt eps cols h p).1 = p.1 ∧ (movePt eps cols h p).2.1 = p.2 ∧
+      -(1/2 : Rat) ≤ offsetAt eps (cols.getD p.2 []) h p.1 ∧ offsetAt eps (cols.getD p.2 []) h p.1 ≤ 1/2 := by
+  unfold movePt at hm ⊢
+  simp only at hm ⊢
+  split
+  · rename_i h1; rw [if_pos h1] at hm; simp at hm
+  · rename_i h1
+    rw [if_neg h1] at hm
+    split
+    · rename_i h2; rw [if_pos h2] at hm; simp at hm
+    · rename_i h2
+      exact ⟨rfl, rfl, by linarith [not_lt.1 h2], not_lt.1 h1⟩
+
+/-- the pass after which the loop stops moved no point: the points are as before and every offset is within half a pixel -/
+theorem refineIter_stop (eps : Rat) (heps : 0 < eps) (cols : List (List Int)) (h : Nat) (n : Int) (hi : ImageOK cols n)
+    (pts : List (Int × Nat)) (hin : ∀ p ∈ pts, 0 ≤ p.1 ∧ p.1 < n) (hz : (refineIter eps cols h n pts).2 = 0) :
+    (refineIter eps cols h n pts).1 = pts ∧
+      ∀ p ∈ pts, -(1/2 : Rat) ≤ offsetAt eps (cols.getD p.2 []) h p.1 ∧ offsetAt eps (cols.getD p.2 []) h p.1 ≤ 1/2 := by
+  unfold refineIter at hz ⊢
+  simp only at hz ⊢
+  have hlow : ((pts.map (movePt eps cols h)).filter fun m => decide (m.1 < 0)) = [] := by
+    rw [List.filter_eq_nil_iff]
+    intro m hm
+    obtain ⟨p, hp, rfl⟩ := List.mem_map.1 hm
+    have := movePt_inside eps heps cols h n hi p (hin p hp)
+    simp only [decide_eq_true_eq]; omega
+  have hhigh : ((pts.map (movePt eps cols h)).filter fun m => decide (m.1 ≥ n)) = [] := by
+    rw [List.filter_eq_nil_iff]
+    intro m hm
+    obtain ⟨p, hp, rfl⟩ := List.mem_map.1 hm
+    have := movePt_inside eps heps cols h n hi p (hin p hp)
+    simp only [decide_eq_true_eq]; omega
+  rw [hlow, hhigh] at hz
+  simp only [List.length_nil, Int.natCast_zero, Int.sub_zero] at hz
+  have hnone : ((pts.map (movePt eps cols h)).filter fun m => m.2.2) = [] := by
+    apply List.eq_nil_of_length_eq_zero
+    exact_mod_cast hz
+  rw [List.filter_eq_nil_iff] at hnone
+  have hun : ∀ p ∈ pts, (movePt eps cols h p).2.2 = false := by
+    intro p hp
+    have := hnone (movePt eps cols h p) (List.mem_map.2 ⟨p, hp, rfl⟩)
+    simpa using this
+  constructor
+  · rw [List.map_map]
+    conv => rhs; rw [← List.map_id pts]
+    apply List.map_congr_left
+    intro p hp
+    obtain ⟨e1, e2, _, _⟩ := movePt_unmoved eps cols h p (hun p hp)
+    have := hin p hp
+    simp only [Function.comp, id, e1, e2, clampPt_id n p.1 this.1 this.2]
+  · intro p hp
+    obtain ⟨_, _, e3, e4⟩ := movePt_unmoved eps cols h p (hun p hp)
+    exact ⟨e3, e4⟩
+
+theorem refineLoop_settled (eps : Rat) (heps : 0 < eps) (cols : List (List Int)) (h : Nat) (n : Int) (hn : 1 ≤ n)
+    (hi : ImageOK cols n) (fuel : Nat) (pts pts' : List (Int × Nat)) (hin : ∀ p ∈ pts, 0 ≤ p.1 ∧ p.1 < n)
+    (hr : refineLoop eps cols h n fuel pts = some pts') :
+    ∀ p ∈ pts', (0 ≤ p.1 ∧ p.1 < n) ∧
+      -(1/2 : Rat) ≤ offsetAt eps (cols.getD p.2 []) h p.1 ∧ offsetAt eps (cols.getD p.2 []) h p.1 ≤ 1/2 := by
+  induction fuel generalizing pts with
+  | zero => simp [refineLoop] at hr
+  | succ f ih =>
+    unfold refineLoop at hr
+    simp only at hr
+    split at hr
+    · rename_i hz
+      injection hr with hr
+      obtain ⟨e, hs⟩ := refineIter_stop eps heps cols h n hi pts hin hz
+      rw [e] at hr; subst hr
+      exact fun p hp => ⟨hin p hp, hs p hp⟩
+    · exact ih _ (refineIter_range eps cols h n hn pts) hr
+
+
+/-! ## merge_close_peaks (deepening round D) -/
+
+theorem mergeCloseFrame_sublist (d : Rat) (fr : List (Rat × Rat)) : (mergeCloseFrame d fr).Sublist fr := by
+  unfold mergeCloseFrame
+  have h : (fr.zipIdx.map (·.1)) = fr := by simp
+  conv => rhs; rw [← h]
+  exact List.Sublist.map _ List.filter_sublist
+
+theorem order_get (fr : List (Rat × Rat)) (r : Nat) (k : Nat)
+    (h : (argsort (fun (a b : Rat) => decide (a ≤ b)) (fr.map (·.1)))[r]? = some k) : k < fr.length := by
+  have hm := List.mem_of_getElem? h
+  have := (argsort_perm _ _).mem_iff.1 hm
+  simpa using this
+
+theorem filterMap_getElem_all {β} (order : List Nat) (fr : List β) (hall : ∀ k ∈ order, k < fr.length) (i : Nat) :
+    (order.filterMap fun k => fr[k]?)[i]? = (order[i]?).bind (fun k => fr[k]?) := by
+  induction order generalizing i with
+  | nil => simp
+  | cons a l ih =>
+    have ha := hall a (by simp)
+    rw [List.filterMap_cons, List.getElem?_eq_getElem ha]
+    cases i with
+    | zero => simp [List.getElem?_eq_getElem ha]
+    | succ j =>
+      simp only [List.getElem?_cons_succ]
+      exact ih (fun k hk => hall k (by simp [hk])) j
+
+theorem sorted_get (fr : List (Rat × Rat)) (i : Nat) (p : Rat × Rat)
+    (h : ((argsort (fun (a b : Rat) => decide (a ≤ b)) (fr.map (·.1))).filterMap fun i => fr[i]?)[i]? = some p) :
+    ∃ k, (argsort (fun (a b : Rat) => decide (a ≤ b)) (fr.map (·.1)))[i]? = some k ∧ fr[k]? = some p := by
+  rw [filterMap_getElem_all _ fr (fun k hk => by
+    obtain ⟨r, hr⟩ := List.mem_iff_getElem?.1 hk
+    exact order_get fr r k hr)] at h
+  cases ho : (argsort (fun (a b : Rat) => decide (a ≤ b)) (fr.map (·.1)))[i]? with
+  | none => rw [ho] at h; simp at h
+  | some k => rw [ho] at h; exact ⟨k, rfl, by simpa using h⟩
+
+
+/-! ## refined tracks and programs that refine (deepening round D) -/
+
+/-- stronger than `refineLoop_settled` at the two edge pixels: the refined coordinate is in `[0, n − 1]` -/
+theorem refineLoop_position (eps : Rat) (heps : 0 < eps) (cols : List (List Int)) (h : Nat) (n : Int) (hn : 1 ≤ n)
+    (hi : ImageOK cols n) (fuel : Nat) (pts pts' : List (Int × Nat)) (hin : ∀ p ∈ pts, 0 ≤ p.1 ∧ p.1 < n)
+    (hr : refineLoop eps cols h n fuel pts = some pts') :
+    ∀ p ∈ pts', (0 : Rat) ≤ (p.1 : Rat) + offsetAt eps (cols.getD p.2 []) h p.1 ∧
+      (p.1 : Rat) + offsetAt eps (cols.getD p.2 []) h p.1 ≤ (n : Rat) - 1 := by
+  intro p hp
+  obtain ⟨⟨h0, h1⟩, h2, h3⟩ := refineLoop_settled eps heps cols h n hn hi fuel pts pts' hin hr p hp
+  obtain ⟨hc, hl⟩ := imageOK_getD cols n (by omega) hi p.2
+  constructor
+  · by_cases hz : p.1 = 0
+    · rw [hz]; have := offsetAt_first_nonneg eps heps _ hc h; simp; exact this
+    · have : (1 : Rat) ≤ (p.1 : Rat) := by exact_mod_cast (by omega : 1 ≤ p.1)
+      linarith
+  · by_cases hz : p.1 = n - 1
+    · rw [hz]; have := offsetAt_last_nonpos eps heps _ hc h n hl; push_cast; linarith
+    · have : (p.1 : Rat) ≤ (n : Rat) - 2 := by
+        have : p.1 ≤ n - 2 := by omega
+        exact_mod_cast this
+      linarith
+
+theorem refineIter_times (eps : Rat) (cols : List (List Int)) (h : Nat) (n : Int) (pts : List (Int × Nat)) :
+    (refineIter eps cols h n pts).1.map (·.2) = pts.map (·.2) := by
+  unfold refineIter
+  simp only [List.map_map]
+  apply List.map_congr_left
+  intro p _
+  simp only [Function.comp, movePt]
+  split
+  · rfl
+  · split <;> rfl
+
+theorem refineLoop_times (eps : Rat) (cols : List (List Int)) (h : Nat) (n : Int) (fuel : Nat)
+    (pts pts' : List (Int × Nat)) (hr : refineLoop eps cols h n fuel pts = some pts') :
+    pts'.map (·.2) = pts.map (·.2) := by
+  induction fuel generalizing pts with
+  | zero => simp [refineLoop] at hr
+  | succ f ih =>
+    unfold refineLoop at hr
+    simp only at hr
+    split at hr
+    · injection hr with hr; subst hr
+      exact refineIter_times eps cols h n pts
+    · rw [ih _ hr, refineIter_times]
+
+theorem roundHalfEven_range (r : Rat) (a b : Int) (ha : (a : Rat) ≤ r) (hb : r ≤ (b : Rat)) :
+    a ≤ roundHalfEven r ∧ roundHalfEven r ≤ b := by
+  have hf1 : a ≤ r.floor := Rat.le_floor_iff.2 ha
+  have hf2 : (r.floor : Rat) ≤ r := Rat.floor_le r
+  have hup : r - (r.floor : Rat) ≥ 1/2 → r.floor + 1 ≤ b := by
+    intro hge
+    have : (r.floor : Rat) < (b : Rat) := by linarith
+    have : r.floor < b := by exact_mod_cast this
+    omega
+  have hfb : r.floor ≤ b := by
+    have : (r.floor : Rat) ≤ (b : Rat) := by linarith
+    exact_mod_cast this
+  unfold roundHalfEven
+  simp only
+  split
+  · exact ⟨hf1, hfb⟩
+  · rename_i h1
+    split
+    · exact ⟨by omega, hup (by linarith)⟩
+    · split
+      · exact ⟨hf1, hfb⟩
+      · exact ⟨by omega, hup (by linarith [not_lt.1 h1])⟩
+
+theorem regroup_flatten {β} (g : List (List β)) : regroup (g.map List.length) g.flatten = g := by
+  induction g with
+  | nil => rfl
+  | cons a g ih =>
+    simp only [List.map_cons, List.flatten_cons, regroup, List.take_left', List.drop_left', ih]
+
+theorem regroup_map {β γ} (f : β → γ) (lens : List Nat) (l : List β) :
+    (regroup lens l).map (·.map f) = regroup lens (l.map f) := by
+  induction lens generalizing l with
+  | nil => rfl
+  | cons k ks ih => simp only [regroup, List.map_cons, List.map_take, List.map_drop, ih]
+
+theorem regroup_mem {β} (lens : List Nat) (l : List β) : ∀ t ∈ regroup lens l, ∀ x ∈ t, x ∈ l := by
+  induction lens generalizing l with
+  | nil => intro t ht; simp [regroup] at ht
+  | cons k ks ih =>
+    intro t ht x hx
+    simp only [regroup, List.mem_cons] at ht
+    rcases ht with rfl | ht
+    · exact List.mem_of_mem_take hx
+    · exact List.mem_of_mem_drop (ih _ t ht x hx)
+
+theorem refineTracks_wf (eps : Rat) (heps : 0 < eps) (cols : List (List Int)) (h : Nat) (n : Int) (hn : 1 ≤ n)
+    (hi : ImageOK cols n) (g g' : List Track)
+    (hg : ∀ t ∈ g, WellFormed (cols.length : Int) 0 ((n : Rat) - 1) t)
+    (hr : refineTracks eps cols h n g = .ok g') :
+    g'.map timesOf = (g.map interpolate).map timesOf ∧
+      ∀ t ∈ g', WellFormed (cols.length : Int) 0 ((n : Rat) - 1) t := by
+  have hig : ∀ t ∈ g.map interpolate, WellFormed (cols.length : Int) 0 ((n : Rat) - 1) t := by
+    intro t ht
+    obtain ⟨t0, ht0, rfl⟩ := List.mem_map.1 ht
+    exact interpolate_wf _ _ _ _ (hg t0 ht0)
+  unfold refineTracks at hr
+  simp only at hr
+  generalize hIG : g.map interpolate = ig at hr hig ⊢
+  generalize hpts : (ig.flatten.map fun p => (roundHalfEven p.2, p.1.toNat)) = pts at hr
+  have hflat : ∀ p ∈ ig.flatten, 0 ≤ p.1 ∧ (0 : Rat) ≤ p.2 ∧ p.2 ≤ (n : Rat) - 1 := by
+    intro p hp
+    obtain ⟨t, ht, hpt⟩ := List.mem_flatten.1 hp
+    have := (hig t ht).2.2 p hpt
+    exact ⟨this.1, this.2.2.1, this.2.2.2⟩
+  have hin : ∀ p ∈ pts, 0 ≤ p.1 ∧ p.1 < n := by
+    intro p hp
+    rw [← hpts] at hp
+    obtain ⟨q, hq, rfl⟩ := List.mem_map.1 hp
+    have hb := hflat q hq
+    have := roundHalfEven_range q.2 0 (n - 1) (by push_cast; exact hb.2.1) (by push_cast; exact hb.2.2)
+    exact ⟨this.1, by simp only; omega⟩
+  unfold refineMoment at hr
+  split at hr
+  · cases hr
+  · rename_i ps hps
+    split at hps
+    · cases hps
+    · split at hps
+      · cases hps
+      · rename_i _ loopres hloop
+        injection hps with hps
+        injection hr with hr
+        subst hps
+        have htimes := refineLoop_times eps cols h n 100 pts loopres hloop
+        have hpos := refineLoop_position eps heps cols h n hn hi 100 pts loopres hin hloop
+        simp only [List.map_map] at hr
+        -- the flat list of refined points
+        generalize hout : (loopres.map ((fun q : Rat × Nat × Int => ((q.2.1 : Int), q.1)) ∘ fun p : Int × Nat =>
+          ((p.1 : Rat) + offsetAt eps (cols.getD p.2 []) h p.1, p.2, m0At (cols.getD p.2 []) h p.1))) = outl at hr
+        have hfst : outl.map (·.1) = ig.flatten.map (·.1) := by
+          rw [← hout, List.map_map]
+          have e1 : loopres.map (fun p => ((p.2 : Nat) : Int)) = (loopres.map (·.2)).map (fun (k : Nat) => (k : Int)) := by
+            rw [List.map_map]; rfl
+          show loopres.map (fun p => ((p.2 : Nat) : Int)) = _
+          rw [e1, htimes, ← hpts, List.map_map, List.map_map]
+          apply List.map_congr_left
+          intro p hp
+          have := (hflat p hp).1
+          simp only [Function.comp]
+          omega
+        have hT : g'.map timesOf = ig.map timesOf := by
+          subst hr
+          have := regroup_map (fun p : Int × Rat => p.1) (ig.map List.length) outl
+          unfold timesOf
+          rw [this, hfst, ← regroup_map, regroup_flatten]
+        refine ⟨hT, ?_⟩
+        intro t ht
+        obtain ⟨j, hj⟩ := List.mem_iff_getElem?.1 ht
+        have hj' : (ig.map timesOf)[j]? = some (timesOf t) := by rw [← hT, List.getElem?_map, hj]; rfl
+        rw [List.getElem?_map] at hj'
+        cases hig_j : ig[j]? with
+        | none => rw [hig_j] at hj'; simp at hj'
+        | some it =>
+          rw [hig_j] at hj'
+          simp only [Option.map_some, Option.some.injEq] at hj'
+          have hwf := hig it (List.mem_of_getElem? hig_j)
+          refine ⟨?_, ?_, ?_⟩
+          · intro h0
+            have : timesOf it = [] := by rw [hj', h0]; rfl
+            exact hwf.1 (List.map_eq_nil_iff.1 this)
+          · unfold Inc; rw [← hj']; exact hwf.2.1
+          · intro p hp
+            have hpt : p.1 ∈ timesOf it := by rw [hj']; exact List.mem_map.2 ⟨p, hp, rfl⟩
+            obtain ⟨q, hq, hq1⟩ := List.mem_map.1 hpt
+            have hb := hwf.2.2 q hq
+            have hpo : p ∈ outl := by subst hr; exact regroup_mem _ _ t ht p hp
+            rw [← hout] at hpo
+            obtain ⟨lp, hlp, rfl⟩ := List.mem_map.1 hpo
+            have := hpos lp hlp
+            simp only [Function.comp] at hq1 ⊢
+            exact ⟨by omega, by omega, this.1, this.2⟩
+
+theorem runSteps_wf (eps : Rat) (heps : 0 < eps) (lt : Rat) (cols : List (List Int)) (n : Int) (hn : 1 ≤ n)
+    (hi : ImageOK cols n) (sts : List Step) (g : List Track)
+    (hg : ∀ t ∈ g, WellFormed (cols.length : Int) 0 ((n : Rat) - 1) t) :
+    ∀ t ∈ runSteps eps lt cols n sts g, WellFormed (cols.length : Int) 0 ((n : Rat) - 1) t := by
+  induction sts generalizing g with
+  | nil => exact hg
+  | cons st sts ih =>
+    unfold runSteps
+    split
+    · rename_i g' h
+      apply ih g'
+      cases st with
+      | edit op => exact applyOp_wf lt g op g' hg h
+      | refine hh => exact (refineTracks_wf eps heps cols hh n hn hi g g' hg h).2
+    · exact ih g hg
+
 
 end Verif.C08
